@@ -1,6 +1,7 @@
 import Fabio.Generated.C18
 import Fabio.Props.C18
 import Fabio.Props.C18Exit
+import Fabio.Props.C18System
 /-!
 Obligations over the facts regenerated from `/repo` on every run: the shapes of the code from which the
 per-type contracts of `Fabio.Model.C18` were read. `…Events` lists are the calls / channel receives / go
@@ -169,6 +170,25 @@ theorem process_completes_inflight_work_on_this_tree (s grace wait : Nat) (srvs 
   simp only [h1, h2, if_true]
   exact ⟨Props.C18.process_completes_inflight_work _ s grace wait srvs sv l e hs hl he h,
          Props.C18.process_exit_bounded _ Props.C18.repaired_contract_bounded s grace wait srvs⟩
+
+/-- **C18 end to end, at the three contracts read from this tree** (`exit.Listen`'s select, the websocket wait,
+`gRPCServer.Shutdown`'s use of its context): whatever SIGHUPs came before, whichever way the process is told to stop,
+from `s + grace` on no listener that was up accepts, every piece of in-flight work that ends within the wait
+completes before the process ends, and the process ends no later than `s + grace + wait`. -/
+theorem c18_end_to_end_on_this_tree (n : Nat) (last : Fabio.Model.C18Exit.Ev) (h : last ≠ .hup)
+    (s grace wait : Nat) (srvs : List Server) :
+    (∀ t, s + grace ≤ t → Fabio.Model.C18System.listenerAccepts codeListenContract n last s grace t = false) ∧
+    (∀ sv ∈ srvs, ∀ l ∈ sv.leaves, ∀ e ∈ l.allWork, tle e (some (s + grace + wait)) = true →
+        processFate (Fabio.Model.C18System.processEnd codeListenContract codeWsContract
+          (if grpcShutdownUsesCtx then .stopsAtDeadline else .ignoresDeadline) n last s grace wait srvs) e = .completed) ∧
+    tle (Fabio.Model.C18System.processEnd codeListenContract codeWsContract
+          (if grpcShutdownUsesCtx then .stopsAtDeadline else .ignoresDeadline) n last s grace wait srvs)
+        (some (s + grace + wait)) = true := by
+  have h1 : codeListenContract = .reselects := by decide
+  have h2 : codeWsContract = .waitedFor := by decide
+  have h3 : grpcShutdownUsesCtx = true := by decide
+  simp only [h1, h2, h3, if_true]
+  exact Props.C18System.c18_end_to_end Props.C18.repaired_contract_bounded n last h s grace wait srvs
 
 /-- **Tie of `Model.C18.listenAndServe` / `Start`** (one bind, then the registration, nothing in between): on the way
 from a `ListenAndServe*` call to the registry insert — `ListenTCP` included — nothing sleeps, waits on a timer, a
